@@ -169,7 +169,22 @@ class Model:
     def all_ignores(self):
         out = []
         for i in range(self.top, -1, -1):
-            out.extend((i, e) for e in self.mods[i].ignores)
+            m = self.mods[i]
+            for j, e in enumerate(m.ignores):
+                if m.ignore_style.startswith('named'):
+                    # `ignore Name = pattern` defines a rule: a more derived grammar that defines a rule of that
+                    # name overrides what is skipped (late binding, like every other rule)
+                    name = '%s%d' % (m.ignore_prefix, j)
+                    for k in range(self.top, i, -1):
+                        d = self.mods[k].ruledict.get(name)
+                        if d is not None and d[0] == 'rule' and not d[1]:
+                            e, i2 = d[2], k
+                            break
+                    else:
+                        i2 = i
+                    out.append((i2, e))
+                else:
+                    out.append((i, e))
         return out
 
     # -- entry -----------------------------------------------------------
